@@ -1266,6 +1266,20 @@ fn slice_exact_length(i: &Input) -> Outcome {
         fixed_len_verdict("KeyPair::from_slices public key", 32, elems, r)?;
         let r = dryoc::keypair::StackKeyPair::from_slices(&good, elems).map(|k| k.secret_key.to_vec()).map_err(|e| e.to_string());
         fixed_len_verdict("KeyPair::from_slices secret key", 32, elems, r)?;
+        // signing key pairs: the public key slice is length-checked and kept as given even with a well-formed 64-byte secret key
+        let (spk, ssk) = so::sign_seed_keypair(&[9u8; 32]);
+        let r = dryoc::sign::SigningKeyPair::<dryoc::sign::PublicKey, dryoc::sign::SecretKey>::from_slices(elems, &ssk)
+            .map(|k| k.public_key.to_vec())
+            .map_err(|e| e.to_string());
+        fixed_len_verdict("SigningKeyPair::from_slices public key (with a genuine 64-byte secret key)", 32, elems, r)?;
+        let _ = spk;
+    }
+    if n == 64 {
+        let good = [7u8; 32];
+        let r = dryoc::sign::SigningKeyPair::<dryoc::sign::PublicKey, dryoc::sign::SecretKey>::from_slices(&good, elems)
+            .map(|k| k.secret_key.to_vec())
+            .map_err(|e| e.to_string());
+        fixed_len_verdict("SigningKeyPair::from_slices secret key", 64, elems, r)?;
     }
     Ok(())
 }
